@@ -4,7 +4,9 @@
 (* (n <= MaxN; "a$b$"-style multi-sequence texts included), every Occ rate   *)
 (* in OccRates (the Occ machine of C04 with threshold T is what `occ` calls) *)
 (* and every non-empty sentinel-free pattern of length <= MaxP:              *)
-(*   Start(p)  a new search on the same index (the index is reused)          *)
+(*   Start(p)  a search on the index (the index is immutable: nothing a      *)
+(*             search leaves behind can influence the next one, so searches  *)
+(*             start from the idle index only)                               *)
 (*   Step      one LF-mapping refinement, from the last pattern symbol       *)
 (*   Finish    Complete / Partial(previous interval, matched length) / Absent*)
 EXTENDS SuffixIndex
@@ -26,7 +28,7 @@ Init ==
     /\ mode = "idle" /\ p = << >> /\ st = 0 /\ res = NoRes
 
 Start ==
-    /\ mode \in {"idle", "done"}
+    /\ mode = "idle"
     /\ \E q \in Patterns : p' = q /\ st' = BSInit(N, Len(q))
     /\ mode' = "search" /\ res' = NoRes
     /\ UNCHANGED <<t, sa, ix>>
